@@ -196,9 +196,23 @@ func (n *networkAddressTranslator) translateOutbound(from Chunk) (Chunk, error) 
 
 			mapp := n.findOutboundMapping(oKey)
 			if mapp == nil {
-				// Create a new mapping
-				mappedPort := 0xC000 + n.udpPortCounter
-				n.udpPortCounter++
+				// Create a new mapping on the next port of the dynamic range
+				// (0xC000-0xFFFF) that is not held by a live mapping.
+				mappedPort := -1
+				for i := 0; i < 0x4000; i++ {
+					port := 0xC000 + (n.udpPortCounter+i)%0x4000
+					if n.findInboundMapping(fmt.Sprintf("udp:%s:%d", n.mappedIPs[0].String(), port)) == nil {
+						mappedPort = port
+						n.udpPortCounter = (n.udpPortCounter + i + 1) % 0x4000
+
+						break
+					}
+				}
+				if mappedPort < 0 {
+					n.log.Warnf("[%s] drop outbound chunk %s: no free port", n.name, from.String())
+
+					return nil, nil // nolint:nilnil
+				}
 
 				mapp = &mapping{
 					proto:   from.SourceAddr().Network(),
